@@ -1,7 +1,8 @@
 (* C07 — Trial run object: created only for a trial seen as not completed, deleted only for a completed one with
    retain = false, observation logs removed before the finalizer is released.  Per-reconcile theorems: they hold for
-   EVERY snapshot a reconcile can be looking at. *)
-From KV Require Import Base.Prelude Base.Cond Model.World Proofs.WorldPlan.
+   EVERY snapshot a reconcile can be looking at.  Further down: the same over runs of the joint model. *)
+From KV Require Import Base.Prelude Base.Cond Model.World Proofs.WorldPlan Proofs.WorldInv2 Proofs.WorldInv5 Proofs.WorldQuiet
+  Proofs.WorldJob Proofs.WorldFin.
 Open Scope Z_scope.
 
 Theorem C07_no_create_completed : forall w key dberr n,
@@ -29,3 +30,65 @@ Print Assumptions C07_db_before_finalizer.
 Theorem C07_create_refused_when_present : forall w n, find_job n (w_jobs w) <> None -> apply_write w (WJobCreate n) = None.
 Proof. intros w n H. cbn. destruct (find_job n (w_jobs w)); [reflexivity|congruence]. Qed.
 Print Assumptions C07_create_refused_when_present.
+
+(* ------------------------------------------------------------------ over runs of the joint model *)
+
+(* [job_safe_acts]: the history contains no teardown and no deletion of a run object by something other than katib
+   (action JobGone).  With such an external deletion inside the window in which the trial cache lags behind the trial's own
+   completion the unchanged controller does create the run object again (DESIGN.md, remark on C07). *)
+
+(* At most one run object is ever created per trial: the log of successful creations has no duplicates. *)
+Theorem C07_created_once : forall c acts, valid_cfg c -> job_safe_acts acts -> NoDup (g_jobcreates (run c acts)).
+Proof. exact job_created_once. Qed.
+Print Assumptions C07_created_once.
+
+(* Never for a completed trial: a trial that is completed in the store has had its run object created before, so
+   (created once) none is created for it later; put as a step, the creation of the run object of trial n happens in a
+   state where the stored trial n is not completed. *)
+Theorem C07_not_created_for_completed : forall c acts t,
+  valid_cfg c -> job_safe_acts acts -> In t (w_trials (run c acts)) -> t_completed t = true ->
+  In (t_name t) (g_jobcreates (run c acts)).
+Proof. exact job_not_created_for_completed. Qed.
+Print Assumptions C07_not_created_for_completed.
+
+Theorem C07_create_means_unfinished : forall c acts a n t,
+  valid_cfg c -> job_safe_acts (acts ++ [a]) ->
+  ~ In n (g_jobcreates (run c acts)) -> In n (g_jobcreates (run c (acts ++ [a]))) ->
+  find_trial n (w_trials (run c acts)) = Some t -> t_completed t = false.
+Proof. exact job_create_means_unfinished. Qed.
+Print Assumptions C07_create_means_unfinished.
+
+(* The run object of an unfinished trial is never deleted; deletion needs retain = false. *)
+Theorem C07_deleted_only_finished : forall c acts n,
+  valid_cfg c -> job_safe_acts acts -> In n (g_jobdeletes (run c acts)) ->
+  c_retain c = false /\ exists t, find_trial n (w_trials (run c acts)) = Some t /\ t_completed t = true.
+Proof. exact job_deleted_only_finished. Qed.
+Print Assumptions C07_deleted_only_finished.
+
+(* retain = true: every run object that was created is still there ... *)
+Theorem C07_kept_with_retain : forall c acts n,
+  valid_cfg c -> job_safe_acts acts -> c_retain c = true -> In n (g_jobcreates (run c acts)) ->
+  find_job n (w_jobs (run c acts)) <> None.
+Proof. exact job_kept_with_retain. Qed.
+Print Assumptions C07_kept_with_retain.
+
+(* ... retain = false: at rest (nothing left to do for any controller, jobs finished, metrics reported) no trial has a
+   run object any more. *)
+Theorem C07_removed_at_rest : forall w t,
+  InvS w -> quiescent w -> env_done w -> In t (w_trials w) -> c_retain (w_cfg w) = false ->
+  find_job (t_name t) (w_jobs w) = None.
+Proof. exact quiescent_job_removed. Qed.
+Print Assumptions C07_removed_at_rest.
+
+(* Every run object in the store stems from the single creation for the trial of its name. *)
+Theorem C07_job_is_created : forall c acts j,
+  valid_cfg c -> job_safe_acts acts -> In j (w_jobs (run c acts)) -> In (j_name j) (g_jobcreates (run c acts)).
+Proof. exact job_is_created. Qed.
+Print Assumptions C07_job_is_created.
+
+(* For EVERY history of the model, teardown and garbage collection included, without any assumption: a trial's finalizer
+   is released only after its observation log has been deleted from the metrics DB. *)
+Theorem C07_finalizer_after_db_delete : forall c acts n,
+  In n (g_finreleased (run c acts)) -> In n (g_dbdeletes (run c acts)).
+Proof. exact finalizer_after_db_delete. Qed.
+Print Assumptions C07_finalizer_after_db_delete.
